@@ -49,12 +49,12 @@ func Compile(s *schema.Node) (*Env, error) {
 
 // Op is one operation of a history.
 type Op struct {
-	Kind    string     `json:"kind"`              // upsert insert update replace delete
-	Into    bool       `json:"into,omitempty"`    // store is the source, payload tree the target? no: see Exec
-	At      model.Path `json:"at"`                // entry point (empty: root)
-	SrcKind string     `json:"src,omitempty"`     // json xml mnode
-	Tree    *model.Tree  `json:"tree,omitempty"`  // payload at a root/container/list-entry entry point
-	List    *model.ListT `json:"list,omitempty"`  // payload at a list entry point
+	Kind    string       `json:"kind"`           // upsert insert update replace delete
+	Into    bool         `json:"into,omitempty"` // store is the source, payload tree the target? no: see Exec
+	At      model.Path   `json:"at"`             // entry point (empty: root)
+	SrcKind string       `json:"src,omitempty"`  // json xml mnode
+	Tree    *model.Tree  `json:"tree,omitempty"` // payload at a root/container/list-entry entry point
+	List    *model.ListT `json:"list,omitempty"` // payload at a list entry point
 }
 
 func (o Op) String() string {
@@ -190,11 +190,11 @@ func FindSel(root *node.Selection, p model.Path) (*node.Selection, error) {
 
 // Result of executing an op through the library.
 type Result struct {
-	Err      error
-	Panic    interface{}
-	PanicAt  string
-	Stack    string
-	NotFound bool // entry point did not resolve
+	Err       error
+	Panic     interface{}
+	PanicAt   string
+	Stack     string
+	NotFound  bool // entry point did not resolve
 	SourceErr bool // the source document could not be read
 }
 
